@@ -229,15 +229,48 @@ impl ModsSpec {
         Some(mods)
     }
 
+    /// The intermode representation: the legacy bits plus those extras that are a plain mod without settings
+    /// (Classic, HoldOff, Invert, 10K, other acronyms), restricted to what the mode knows like `lazer()` does.
+    pub fn intermode(&self, mode: GameMode) -> GameModsIntermode {
+        let mut im = GameModsIntermode::from_bits(self.bits);
+        for e in self.intermode_extras(mode) {
+            let acr = match e {
+                LazerExtra::Classic | LazerExtra::ClassicSetting(_) => "CL",
+                LazerExtra::HoldOff => "HO",
+                LazerExtra::Invert => "IN",
+                LazerExtra::TenKeys => "10K",
+                LazerExtra::Acronym(a) => a,
+                _ => continue,
+            };
+            im.insert(GameMod::new(acr, mods_mode(mode)).intermode());
+        }
+        im
+    }
+
+    /// Extras that survive in the intermode representation for `mode`.
+    fn intermode_extras(&self, mode: GameMode) -> Vec<LazerExtra> {
+        let mm = mods_mode(mode);
+        self.extras
+            .iter()
+            .filter(|e| match e {
+                LazerExtra::Classic => true,
+                LazerExtra::HoldOff | LazerExtra::Invert | LazerExtra::TenKeys => mode == GameMode::Mania,
+                LazerExtra::Acronym(a) => !matches!(GameMod::new(a, mm), GameMod::UnknownOsu(_) | GameMod::UnknownTaiko(_) | GameMod::UnknownCatch(_) | GameMod::UnknownMania(_)),
+                _ => false,
+            })
+            .cloned()
+            .collect()
+    }
+
     pub fn build(&self, mode: GameMode) -> GameMods {
         match self.repr {
             ModRepr::U32 => GameMods::from(self.bits),
             ModRepr::Legacy => GameMods::from(GameModsLegacy::from_bits(self.bits)),
-            ModRepr::Intermode => GameMods::from(GameModsIntermode::from_bits(self.bits)),
-            ModRepr::IntermodeRef => GameMods::from(&GameModsIntermode::from_bits(self.bits)),
+            ModRepr::Intermode => GameMods::from(self.intermode(mode)),
+            ModRepr::IntermodeRef => GameMods::from(&self.intermode(mode)),
             ModRepr::Lazer => match self.lazer(mode) {
                 Some(m) => GameMods::from(m),
-                None => GameMods::from(GameModsIntermode::from_bits(self.bits)),
+                None => GameMods::from(self.intermode(mode)),
             },
         }
     }
@@ -248,11 +281,12 @@ impl ModsSpec {
 
     /// The lazer-only extras that actually take effect for `mode` (none unless the lazer
     /// representation can be built: otherwise `build` falls back to the intermode bits).
-    pub fn effective_extras(&self, mode: GameMode) -> &[LazerExtra] {
-        if self.repr == ModRepr::Lazer && self.lazer(mode).is_some() {
-            &self.extras
-        } else {
-            &[]
+    pub fn effective_extras(&self, mode: GameMode) -> Vec<LazerExtra> {
+        match self.repr {
+            ModRepr::Lazer if self.lazer(mode).is_some() => self.extras.clone(),
+            // (the lazer representation falls back to the intermode one when the mode lacks one of the mods)
+            ModRepr::Lazer | ModRepr::Intermode | ModRepr::IntermodeRef => self.intermode_extras(mode),
+            _ => Vec::new(),
         }
     }
 
@@ -262,7 +296,7 @@ impl ModsSpec {
     }
 
     pub fn is_nomod(&self) -> bool {
-        self.bits == 0 && (self.repr != ModRepr::Lazer || self.extras.is_empty())
+        self.bits == 0 && (matches!(self.repr, ModRepr::U32 | ModRepr::Legacy) || self.extras.is_empty())
     }
 }
 
@@ -311,7 +345,16 @@ impl DiffSpec {
     }
 
     pub fn build(&self, mode: GameMode) -> Difficulty {
-        let mut d = Difficulty::new().mods(self.mods.build(mode));
+        // the setters are independent; which of mods(..) and the others comes first is derived from the
+        // specification itself (deterministic), so that half of all specifications set the mods last
+        let mods_last = {
+            let key = format!("{:?}{:?}{:?}{:?}", self.mods.bits, self.clock_rate, self.passed, self.od);
+            crate::engine::fnv(key.as_bytes()) & 1 == 1
+        };
+        let mut d = Difficulty::new();
+        if !mods_last {
+            d = d.mods(self.mods.build(mode));
+        }
         if let Some(p) = self.passed {
             d = d.passed_objects(p);
         }
@@ -335,6 +378,9 @@ impl DiffSpec {
         }
         if let Some(l) = self.lazer {
             d = d.lazer(l);
+        }
+        if mods_last {
+            d = d.mods(self.mods.build(mode));
         }
         d
     }
@@ -444,6 +490,23 @@ pub fn gen_diff(t: &mut Tape, p: &DiffProfile, mode: GameMode) -> DiffSpec {
     let bits = gen_mod_bits(t, p.key_mods);
     let repr = *t.pick(&[ModRepr::U32, ModRepr::U32, ModRepr::Legacy, ModRepr::Intermode, ModRepr::IntermodeRef, ModRepr::Lazer, ModRepr::Lazer]);
     let mut extras = Vec::new();
+    if matches!(repr, ModRepr::Intermode | ModRepr::IntermodeRef) && p.lazer_mods && t.chance(1, 2) {
+        // lazer-only mods without settings can be expressed as intermode mods as well
+        if t.chance(1, 3) {
+            extras.push(LazerExtra::Classic);
+        }
+        if mode == GameMode::Mania {
+            if t.chance(1, 4) {
+                extras.push(LazerExtra::HoldOff);
+            }
+            if t.chance(1, 4) {
+                extras.push(LazerExtra::Invert);
+            }
+        }
+        if t.chance(1, 3) {
+            extras.push(LazerExtra::Acronym(*t.pick(&LAZER_ACRONYMS)));
+        }
+    }
     if repr == ModRepr::Lazer && p.lazer_mods {
         if t.chance(1, 4) {
             extras.push(if t.chance(1, 3) { LazerExtra::ClassicSetting(t.coin()) } else { LazerExtra::Classic });
